@@ -20,7 +20,15 @@ trap "git -C /repo checkout -- ." EXIT
 git apply /verif/seeded/$ID/patch.diff
 cd /verif
 set +e
-for t in quick; do ./check $P --tier $t > /tmp/seed/$ID.check.log 2>&1; echo "check $P $t exit=$?"; grep -E "VIOLATION|KNOWN" /tmp/seed/$ID.check.log; done
+for t in quick; do ./check $P --tier $t > /tmp/seed/$ID.check.log 2>&1; rc=$?; echo "check $P $t exit=$rc"; grep -E "VIOLATION|KNOWN" /tmp/seed/$ID.check.log; done
+if [ "$rc" = 0 ]; then
+  # the property's own check is quiet: does the check of a neighbouring property (whose anchor the change touched) report it?
+  for q in $(python3 -c "import json;print(' '.join(c['property_id'] for c in json.load(open('MANIFEST.json'))['checks']))"); do
+    [ "$q" = "$P" ] && continue
+    ./check $q --tier quick > /tmp/seed/$ID.other.log 2>&1 || { echo "  reported by check $q:"; grep -E "^VIOLATION" /tmp/seed/$ID.other.log; OTHERS="$OTHERS $q"; }
+  done
+  echo "other checks reporting it:${OTHERS:- none}"
+fi
 git -C /repo checkout -- .
 git -C /repo status --short
 # refresh the evidence on the clean tree (the run above wrote evidence of the seeded tree)
